@@ -35,6 +35,16 @@ def check(tier):
     cfg5 = e1.Config(PROP, alphabet(objn, [G("m", "C")]), depth + 2, [], [oracles.c05_value], split=2)
     e1.run(cfg5, rep5)
     _fold(rep, rep5, "objnarrow")
+    # equal keys inside one DICT / SETITEMS slice (last one wins), and memo layouts mixing explicit PUT ids with MEMOIZE
+    rep6 = Report(PROP, tier)
+    cfg6 = e1.Config(PROP, alphabet("MARK STR STRB K1 K2 DICT SETITEMS EDICT SETITEM".split()), depth + 2, [], [oracles.c05_value], split=2)
+    e1.run(cfg6, rep6)
+    _fold(rep, rep6, "dupkeys")
+    rep7 = Report(PROP, tier)
+    cfg7 = e1.Config(PROP, alphabet("K1 K2 MARK TUPLE BINPUT1 BINPUT0 MEMOIZE BINGET0 BINGET1 POP LBPUT LBGET".split()), depth + 2, [],
+                     [oracles.c05_value], split=2)
+    e1.run(cfg7, rep7)
+    _fold(rep, rep7, "memo")
     rep4 = Report(PROP, tier)
     ctx = alphabet("NONE K1 STR MARK TUPLE ETUP EDICT ELIST ESET POP".split(), [G("m", "C")])
     labels = {s.label for s in ctx}
